@@ -214,8 +214,34 @@ pub fn record_c02(rec: &mut Recorder, seed: u64, thorough: bool) {
     }
 }
 
+/// Many buffered hits whose 8-bit images coincide: low threshold, a few next() calls, then max().
+fn many_pending(rec: &mut Recorder, r: &mut impl Rng, thorough: bool) {
+    let n = if thorough { 240 } else { 70 };
+    for it in 0..n {
+        let l = r.gen_range(40..700);
+        let m = r.gen_range(6..=14);
+        let pssm = gen_pssm(r, m, if it % 3 == 0 { 4 } else { 0 });       // wide range: coarse 8-bit steps over a 1/4 grid
+        let ranks = gen_seq(r, l, &pssm, it);
+        let mut scores: Vec<i64> = window_scores(&pssm, &ranks).into_iter().filter(|&x| x != NINF).collect();
+        scores.sort();
+        if scores.is_empty() { continue; }
+        let (thr, thr_kind) = match it % 4 {
+            0 => (scores[0] - 1, "below_min"),
+            1 => (scores[scores.len() / 2], "quantile_50"),
+            2 => (scores[scores.len() * 3 / 4], "quantile_75"),
+            _ => (scores[scores.len() / 4], "quantile_25"),
+        };
+        let inp = Input { ranks, pssm, thr, thr_kind };
+        let bs = [1usize, 2, 4, 16, 256][it % 5];
+        let k = 1 + it % 3;
+        history(rec, &inp, Arm::Avx2, bs, Some(k), it % 2 == 0, "max_many_pending");
+        if it % 2 == 0 { history(rec, &inp, Arm::Avx2, [3usize, 256][it % 2], Some(k + 2), false, "max_many_pending"); }
+    }
+}
+
 pub fn record_c03(rec: &mut Recorder, seed: u64, thorough: bool) {
     let mut r = rng(seed, 3);
+    many_pending(rec, &mut r, thorough);
     let mut kind = 0;
     for (l, m, bs) in shapes(thorough, &mut r).into_iter().chain(big_shapes(thorough, &mut r)) {
         kind += 1;
